@@ -319,8 +319,10 @@ func (t Table) matchingHosts(req *http.Request, globCache *GlobCache) (hosts []s
 		//Get Compiled Glob from LRU cache
 		g, err := globCache.Get(normpat)
 		if err != nil {
+			// a host which is not a valid glob pattern cannot match any request.
+			// Compiling it once more only panics with the same error.
 			log.Print("[Error] Compiling glob - ", err)
-			g = glob.MustCompile(normpat)
+			continue
 		}
 
 		if g.Match(host) {
